@@ -18,7 +18,9 @@ Record scfg := mkScfg {
 Definition scfg_pinned : scfg := mkScfg false false false.
 Definition scfg_fixed : scfg := mkScfg true true true.
 
-Inductive fault := FNone | FBefore | FAfter.   (* error without effect / error after effect *)
+Inductive fault := FNone | FBefore | FAfter | FBeforeHook.
+  (* error without effect / error after effect / the CORE repository's MarkAsDispatched failed without effect
+     and the wrapper still ran the timer hook (no life-cycle refusal); for every other call = FBefore *)
 Inductive outcome := ONil | OErr (text : string) | OPanic | ONotFound | OCanceled.
 
 Inductive scall :=
@@ -122,11 +124,16 @@ Definition cret_eqb (a b : cret) : bool :=
 Definition faulty (f : fault) (h : hstate) (run : hstate -> hstate * res) : hstate * res :=
   match f with
   | FNone => run h
-  | FBefore => (h, RErr EOther)
+  | FBefore | FBeforeHook => (h, RErr EOther)
   | FAfter => (fst (run h), RErr EOther)
   end.
+(* the wrapper's MarkAsDispatched: err := core(id); a life-cycle refusal returns at once; otherwise the hook
+   runs and err is returned - so a core failure WITHOUT effect still runs the hook, on the unchanged state *)
 Definition call_mark_disp (hc : hcfg) (f : fault) (hf : bool) (now : gtime) (id : string) (h : hstate) : hstate * res :=
-  faulty f h (fun h => hstep hc h (HDispatch hf now id)).
+  match f with
+  | FBeforeHook => (hook_dispatched hf now id h, RErr EOther)
+  | _ => faulty f h (fun h => hstep hc h (HDispatch hf now id))
+  end.
 Definition call_mark_done (f : fault) (now : gtime) (id : string) (e : option string) (h : hstate) : hstate * res :=
   faulty f h (fun h => let (r', x) := step cfg_inmem (hs_repo h) (ODone false now id e) in (with_repo h r', x)).
 Definition call_get_by_id (f : fault) (id : string) (h : hstate) : res :=
